@@ -3,7 +3,7 @@
 record which checks raise an alarm, and write /verif/seeded/<id>/meta.json.   usage: tools/seed_matrix.py [ids...]"""
 import json, os, subprocess, sys, shutil, re
 V = "/verif"
-EXTRA = {"C12-1": ["C19"], "C12-3": ["C05"], "C15-2": ["C03"], "C16-1": ["C09"], "C17-3": ["C19"], "C07-3": ["C20", "C06"], "C15-1": ["C20"], "C16-3": ["C20"], "C14-2": ["C05"], "C09-2": ["C20"]}
+EXTRA = {"C12-1": ["C19"], "C12-3": ["C05"], "C15-2": ["C03"], "C16-1": ["C09"], "C17-3": ["C19"], "C07-3": ["C20", "C06"], "C15-1": ["C20"], "C16-3": ["C20"], "C14-2": ["C05"], "C09-2": ["C20"], "C07-5": ["C06"], "C15-5": ["C03"], "C05-5": ["C19"], "C09-5": ["C19"], "C14-4": ["C19"]}
 
 
 def sh(cmd, **kw):
@@ -11,7 +11,7 @@ def sh(cmd, **kw):
 
 
 def main(ids):
-    seeds = sorted(d for d in os.listdir(f"{V}/seeded") if re.fullmatch(r"C\d\d-\d", d))
+    seeds = sorted(d for d in os.listdir(f"{V}/seeded") if re.fullmatch(r"C\d\d-\d+", d))
     if ids:
         seeds = [s for s in seeds if s in ids]
     wt = "/tmp/matrix_wt"
